@@ -731,6 +731,45 @@ theorem area_config_roundtrip (l : Layout) (d : LayoutD) (vals : Vals)
     simp [toReg, hfl]) h1
   exact ⟨cfg, n, rf', h1, hn1, hn2, h2, h4, by rw [h4]⟩
 
+theorem stateOK_init_of_resetsB (l : Layout) (d : LayoutD) (h : resetsB l d = true) : StateOK l d.initVals := by
+  simp only [resetsB] at h
+  simp only [StateOK, LayoutD.initVals]
+  generalize l.regs = rs at h ⊢
+  generalize d.regs = rds at h ⊢
+  induction rs generalizing rds with
+  | nil => cases rds with | nil => exact .nil | cons _ _ => simp [zipAll] at h
+  | cons r rs ih =>
+    cases rds with
+    | nil => simp [zipAll] at h
+    | cons rd rds =>
+      simp only [zipAll, Bool.and_eq_true, decide_eq_true_eq] at h
+      exact .cons h.1.1 (ih rds h.2)
+
+/-- … and the database: every generated layout without byte-reversed registers, outside the named data defects, has the
+    configuration round trip -/
+theorem gen_config_roundtrip (l : Layout) (d : LayoutD) (hld : (l, d) ∈ layoutsD)
+    (hk1 : knownIllFormed.contains l.name = false) (hk2 : knownDuplicateRegNames.contains l.name = false)
+    (hk3 : knownDuplicateFieldNames.contains l.name = false) (_hnr : noReversedB d = true)
+    (vals : Vals) (hlen : vals.length = l.regs.length) (hs : StateOK l vals)
+    (hrest : ∀ (i : Nat) (r : RegL) (rd : RegD) (v : Nat), l.regs[i]? = some r → d.regs[i]? = some rd → vals[i]? = some v →
+      ∀ k, ¬ Regs.Carried (toRegMeta rd) (toReg r rd v) k → rd.init.testBit k = v.testBit k) :
+    ∃ cfg n rf', Regs.getConfig (toMeta d) (toFile l d vals) = .ok cfg ∧
+      nameCfg d cfg = some n ∧ resolveCfg d n = some cfg ∧
+      Regs.loadConfig (toMeta d) (toFile l d d.initVals) cfg = .ok rf' ∧ valuesOf rf' = vals ∧
+      exportArea l (valuesOf rf') = exportArea l vals := by
+  have hl : l ∈ Generated.RegLayouts.layouts := (List.of_mem_zip hld).1
+  have wf := gen_layouts_wellformed l hl hk1
+  have hall : ∀ {p : Layout × LayoutD → Bool}, layoutsD.all p = true → p (l, d) = true := by
+    intro p hp; rw [List.all_eq_true] at hp; exact hp (l, d) hld
+  have ha := hall gen_details_aligned
+  have hr := hall gen_resets_fit
+  have hn := hall gen_reg_names_unique_partial
+  have hfn := hall gen_field_names_unique_partial
+  simp only [hk2, Bool.false_or, Bool.and_eq_true] at hn
+  simp only [hk3, Bool.false_or] at hfn
+  exact area_config_roundtrip l d vals ha hlen wf hn.2 hfn hs (stateOK_init_of_resetsB l d hr) hrest
+
+
 /-! ## the database: every (family, revision, area) row uses one of the generated layouts, hence … -/
 
 theorem gen_layouts_roundtrip (l : Layout) (hl : l ∈ Generated.RegLayouts.layouts)
